@@ -1,6 +1,7 @@
 //! Shared infrastructure: run context, evidence writer, known-findings matcher, replay files.
 pub mod tree;
 pub mod specgraph;
+pub mod regexdfa;
 
 use serde_json::{json, Value};
 use std::collections::{BTreeMap, BTreeSet};
@@ -56,6 +57,7 @@ impl Ctx {
     pub fn new(prop: &'static str, tier: Tier) -> Ctx {
         let seed = std::env::var("VERIF_SEED").ok().and_then(|s| s.parse().ok()).unwrap_or(0);
         let mut known = vec![];
+        let _ = std::fs::remove_dir_all(format!("{VERIF_DIR}/replays/{prop}"));
         let path = format!("{VERIF_DIR}/known_findings.json");
         if let Ok(text) = std::fs::read_to_string(&path) {
             match serde_json::from_str::<Value>(&text) {
@@ -168,9 +170,13 @@ impl Ctx {
                 let fname: String = key
                     .chars()
                     .map(|c| if c.is_ascii_alphanumeric() || c == '-' || c == '_' || c == '.' { c } else { '_' })
-                    .take(120)
+                    .take(80)
                     .collect();
-                let path = format!("{dir}/{fname}.json");
+                let mut h: u64 = 0xcbf29ce484222325;
+                for b in key.bytes() {
+                    h = (h ^ b as u64).wrapping_mul(0x100000001b3);
+                }
+                let path = format!("{dir}/{fname}_{:08x}.json", h as u32);
                 let doc = json!({"property": self.prop, "key": key, "cases": n, "witness": witness});
                 let _ = std::fs::write(&path, serde_json::to_string_pretty(&doc).unwrap());
                 lines.push(format!("VIOLATION property={} replay={}", self.prop, path));
